@@ -123,3 +123,6 @@ Definition getters_len_only (fs : list finding) (t : gtable) (st : stable) (v v'
   Forall2 (fun ng ns => snd ns <> None ->
                         known_of fs (fst ng) v = false -> known_of fs (fst ng) v' = false ->
                         snd ng v = snd ng v') t st.
+
+(* the view restricted to its length: the same bytes with no spare capacity *)
+Definition restrict (v : slice) : slice := of_bytes (view v).
